@@ -121,6 +121,11 @@ func genStoreDoc(rng *rand.Rand, p storeParams, id uint32, marker string) storeD
 	}
 	if p.Meta {
 		d.Meta = map[string]any{"kind": "doc", "n": int(id % 1000), "marker": marker}
+		if rng.IntN(4) == 0 {
+			// a document without the numeric field: with tiny memtables some memtable / segment then holds no
+			// document carrying "n" at all, and a range filter on it must simply match nothing there
+			delete(d.Meta, "n")
+		}
 	}
 	return d
 }
